@@ -49,6 +49,10 @@ func fnClientUnblock(ctx *cmdContext, args map[string]any) (output respValue, er
 	defer clientsMu.Unlock()
 
 	client, exists := clients[id]
+	if exists && client.dss != ctx.cs.dss {
+		// a connection of another emulator instance in this process
+		exists = false
+	}
 	if exists {
 		reason := ""
 		if isError {
@@ -166,6 +170,10 @@ func fnClientKill(ctx *cmdContext, args map[string]any) (output respValue, err e
 	}
 
 	processAllClients(func(id int64, cs *clientState) {
+		if cs.dss != ctx.cs.dss {
+			// a connection of another emulator instance in this process
+			return
+		}
 		shouldClose := cs.client.MatchFilter(filter)
 
 		if shouldClose {
@@ -234,6 +242,10 @@ func fnClientList(ctx *cmdContext, args map[string]any) (output respValue, err e
 	var list strings.Builder
 
 	processAllClients(func(id int64, cs *clientState) {
+		if cs.dss != ctx.cs.dss {
+			// a connection of another emulator instance in this process
+			return
+		}
 		included := true
 		if len(ids) > 0 {
 			_, included = ids[cs.id]
